@@ -11,7 +11,61 @@ structure RS (KB : Nat) (r : Run V) : Prop where
   rest : DbOK KB r.rest
   cut : r.st.cutoff = r.rest.head?.map (·.sep)
 
-def NewGood (l : Leaf V) : Prop := l.ents ≠ [] ∧ bodyOf l.ents ≤ BODY ∧ (MERGE ≤ bodyOf l.ents ∨ l.cutoff = none)
+/-- what every leaf handed to `handle_new_leaf` satisfies: non-empty, not over-full, at least half full unless it is
+handed the cutoff `None`, its separator at most its keys, its keys below the cutoff it is handed -/
+def NewGood (l : Leaf V) : Prop :=
+  l.ents ≠ [] ∧ bodyOf l.ents ≤ BODY ∧ (MERGE ≤ bodyOf l.ents ∨ l.cutoff = none) ∧
+    (∀ e ∈ l.ents, l.sep ≤ e.key) ∧ (∀ c, l.cutoff = some c → ∀ e ∈ l.ents, e.key < c)
+
+theorem SepChain.bounds : ∀ {leaves : List (Leaf V)} {lo lo' : Nat}, SepChain lo leaves lo' →
+    ∀ l ∈ leaves, (∀ e ∈ l.ents, l.sep ≤ e.key) ∧ (∀ c, l.cutoff = some c → ∀ e ∈ l.ents, e.key < c) := by
+  intro leaves
+  induction leaves with
+  | nil => intro lo lo' _ l hl; simp at hl
+  | cons x xs ih =>
+    intro lo lo' h l hl
+    obtain ⟨a, b, s, c, d, e⟩ := h
+    rcases List.mem_cons.1 hl with rfl | hl
+    · refine ⟨by rw [a]; exact b, ?_⟩
+      intro c' hc'; rw [d] at hc'; cases hc'; exact c
+    · exact ih e l hl
+
+theorem SepChainEnd.bounds {fin : Option Nat} : ∀ {leaves : List (Leaf V)} {lo : Nat}, SepChainEnd fin lo leaves →
+    (∀ c, fin = some c → ∀ l ∈ leaves, ∀ e ∈ l.ents, e.key < c) →
+    ∀ l ∈ leaves, (∀ e ∈ l.ents, l.sep ≤ e.key) ∧ (∀ c, l.cutoff = some c → ∀ e ∈ l.ents, e.key < c) := by
+  intro leaves
+  induction leaves with
+  | nil => intro lo _ _ l hl; simp at hl
+  | cons x xs ih =>
+    intro lo h hfin l hl
+    cases xs with
+    | nil =>
+      obtain ⟨a, b, c⟩ := h
+      simp at hl; subst hl
+      refine ⟨by rw [a]; exact b, ?_⟩
+      intro c' hc'; rw [c] at hc'
+      exact hfin c' hc' l (by simp)
+    | cons y ys =>
+      obtain ⟨a, b, s, c, d, e⟩ := h
+      rcases List.mem_cons.1 hl with rfl | hl
+      · refine ⟨by rw [a]; exact b, ?_⟩
+        intro c' hc'; rw [d] at hc'; cases hc'; exact c
+      · exact ih e (fun c' hc' l' hl' => hfin c' hc' l' (List.mem_cons_of_mem _ hl')) l hl
+
+theorem digest_newGood {KB : Nat} {st st' : St V} {leaves : List (Leaf V)} {res : DigestResult}
+    (hinv : Inv KB st) (o : DigestOut KB st st' leaves res) : ∀ l ∈ leaves, NewGood l := by
+  intro l hl
+  obtain ⟨s1, s2, s3⟩ := o.sizes l hl
+  have hlt : ∀ c, st.cutoff = some c → ∀ l ∈ leaves, ∀ e ∈ l.ents, e.key < c := by
+    intro c hc l' hl' e he
+    apply hinv.hi c hc
+    rw [← o.content_eq]
+    exact List.mem_append_left _ (List.mem_flatMap.2 ⟨l', hl', he⟩)
+  have hb : (∀ e ∈ l.ents, l.sep ≤ e.key) ∧ (∀ c, l.cutoff = some c → ∀ e ∈ l.ents, e.key < c) := by
+    cases res with
+    | finished => exact SepChainEnd.bounds (o.fin rfl).2.2.2 hlt l hl
+    | needsMerge c => exact SepChain.bounds (o.merge c rfl).2.2.2.2.1 l hl
+  exact ⟨s1, s2, s3, hb.1, hb.2⟩
 
 /-! ## `reset_leaf_base` -/
 
@@ -205,7 +259,7 @@ theorem step_spec (sepf : Nat → Nat → Option Nat) (KB : Nat) (hsep : SepOK s
         obtain ⟨y, hy, hyx⟩ := List.mem_map.1 hx
         have : y = x := by cases hyx; rfl
         subst this
-        exact o.sizes y hy
+        exact digest_newGood hrs.inv o y hy
     · obtain ⟨y, _, hyx⟩ := List.mem_map.1 hx
       cases hyx
 
